@@ -4,7 +4,7 @@
 # /repo is never touched. Replay/evidence files go to /tmp/verif-devout/<name>/. The official way to run
 # a check against a change (apply to /repo, run, revert) is sens.sh.
 patch="$(readlink -f "$1")"; id="$2"; tier="${3:-quick}"
-name=$(echo "$patch" | md5sum | cut -c1-10)
+name=$(echo "$patch $id" | md5sum | cut -c1-10)
 WT=/tmp/senswt/$name
 mkdir -p /tmp/senswt; [ -d $WT ] && git -C /repo worktree remove --force $WT
 git -C /repo worktree add -q --detach $WT HEAD || exit 2
